@@ -3,6 +3,7 @@
 // records one ndjson event per public call.  It never decides anything.
 
 mod field;
+mod group;
 mod hash;
 mod out;
 mod rng;
@@ -45,6 +46,20 @@ fn main() {
             let what = get("what", "lattice+random");
             for ty in get("types", "GF25519").split(',') {
                 field::run(&mut tr, &mut rng, ty, &what, &plan);
+            }
+        }
+        "group" => {
+            let plan = group::Plan {
+                scripts: num("scripts", 10),
+                len: num("len", 30),
+                scalars: num("scalars", 60),
+                codec_random: num("codec", 50),
+                profile: get("profile", "law"),
+                tables_stride: num("stride", 1),
+            };
+            let what = get("what", "law");
+            for g in get("groups", "ed25519").split(',') {
+                group::run(&mut tr, &mut rng, g, &what, &plan);
             }
         }
         "hash" => hash::run(&mut tr, &mut rng, &get("script", "")),
